@@ -217,6 +217,33 @@ Fixpoint wf (t : sx) : bool :=
   end.
 
 (* ------------------------------------------------------------------------
+   Statements of the model: an expression, `let name = e`, a procedure call. *)
+Inductive sst :=
+| SSExpr (t : sx)
+| SSLet (name : str) (t : sx)
+| SSProc (k : kw) (args : list sx).
+
+Definition pr_stmt (s : sst) : list token :=
+  match s with
+  | SSExpr t => pr t
+  | SSLet n t => TKw KLet :: TIdent n :: TEqual :: pr t
+  | SSProc k args => TKw k :: TLParen :: pr_args args ++ [TRParen]
+  end.
+
+Definition wf_stmt (s : sst) : bool :=
+  match s with
+  | SSExpr t | SSLet _ t => wf t
+  | SSProc k args => is_procedure k && forallb wf args
+  end.
+
+Definition desugar_stmt (s : sst) : stmt :=
+  match s with
+  | SSExpr t => StExpr (desugar t)
+  | SSLet n t => StLet n (desugar t)
+  | SSProc k args => StProc k (map desugar args)
+  end.
+
+(* ------------------------------------------------------------------------
    Minimal parenthesisation of an abstract tree according to the table. *)
 Definition paren_if (b : bool) (s : sx) : sx := if b then SParen s else s.
 Definition at_level (k : nat) (s : sx) : sx := paren_if (lvl s <? k) s.
